@@ -6,7 +6,7 @@
    placement theorem of Props/C11.v).  The round trip itself is checked on every run against an
    expected catalog computed from the abstract model by an independent oracle (lib/expected.py)
    and against the extracted catalog model. *)
-From JS Require Import Base Bytes Scanner Directive Core Expand Catalog C02Proofs CatalogOrder.
+From JS Require Import Base Bytes Scanner Directive Core Expand Catalog C02Proofs CatalogOrder CatalogExact.
 From JS Require DirectiveTables.
 
 Theorem C02_updates_are_local :
@@ -51,10 +51,19 @@ Theorem C02_built_catalog_lists_every_interaction_once :
   forall read_body banned fuel forest c, build_catalog read_body banned fuel forest = COk c -> NoDup (ids c).
 Proof. exact built_catalog_ids_distinct. Qed.
 
+(* ... exactly: for every forest, ban list and body text, the interaction ids of the built catalog are
+   the ids of the HTTP-method and JSON-RPC Method directives met in a pre-order walk of the forest -
+   nothing missing, nothing invented, nothing reordered (own_ids: the id a directive stands for) *)
+Theorem C02_interactions_are_exactly_the_method_directives_in_document_order :
+  forall read_body banned fuel forest c,
+    build_catalog read_body banned fuel forest = COk c -> ids c = forest_ids fuel forest.
+Proof. exact built_catalog_interactions_are_exactly_the_method_directives. Qed.
+
 Print Assumptions C02_updates_are_local.
 Print Assumptions C02_a_directive_appends_at_most_one_new_interaction.
 Print Assumptions C02_interactions_are_appended_in_document_order.
 Print Assumptions C02_built_catalog_lists_every_interaction_once.
+Print Assumptions C02_interactions_are_exactly_the_method_directives_in_document_order.
 Print Assumptions C02_updates_keep_document_order.
 Print Assumptions C02_id_of_method_with_own_path.
 Print Assumptions C02_id_of_method_in_url.
